@@ -14,20 +14,24 @@ import (
 var checks = map[string]func(*rules.Ctx){
 	"C01": rules.C01,
 	"C02": rules.C02,
+	"C03": rules.C03,
 	"C04": rules.C04,
 	"C05": rules.C05,
 	"C06": rules.C06,
 	"C07": rules.C07,
 	"C08": rules.C08,
 	"C09": rules.C09,
+	"C10": rules.C10,
 	"C11": rules.C11,
 	"C12": rules.C12,
 	"C13": rules.C13,
 	"C14": rules.C14,
+	"C15": rules.C15,
 	"C16": rules.C16,
 	"C17": rules.C17,
 	"C18": rules.C18,
 	"C19": rules.C19,
+	"C20": rules.C20,
 }
 
 func main() {
